@@ -220,6 +220,22 @@ class Builder:
         a, b, c = self.name(), self.name(), self.name()
         self.out(target, [f"{a} = {self.val('int')}", f"{b} = {self.val('float')}", f"{c} = {a} + {b}", f"mon.write({c})", f"{c} = {a} * 2", f"mon.write({c})",
                           f"mon.write({a} * {b})", f"mon.write(float({a}))", f"mon.write(int({b}))"])
+        # every operator with an int on one side and a float on the other: the result is a float whichever side the float is on
+        ops = self.draw(st.lists(st.sampled_from(["+", "-", "*", "/", "//", "%"]), min_size=1, max_size=3, unique=True))
+        for op in ops:
+            d = self.name()
+            lhs, rhs = (a, self.draw(st.sampled_from(["2.5", "0.75", "1.5", b]))) if self.draw(st.booleans()) else (b, self.draw(st.sampled_from(["2", "3", a])))
+            if op in ("/", "//", "%") and rhs in (a, b):
+                rhs = "2.5" if lhs == a else "2"
+            where = self.draw(st.sampled_from(["top", "helper", "loop"]))
+            if where == "top":
+                self.out(target, [f"{d} = {lhs} {op} {rhs}", f"mon.write({d})"])
+            elif where == "helper":
+                h, pa, pb = self.name("h"), self.name("a"), self.name("b")
+                self.pre += [f"def {h}({pa}: int, {pb}: float):", f"    return {pa if lhs == a else pb} {op} {rhs if rhs not in (a, b) else (pa if rhs == a else pb)}"]
+                self.out(target, [f"{d} = {h}({a}, {b})", f"mon.write({d})"])
+            else:
+                self.out(target, ["for q in range(2):", f"    {d} = {lhs} {op} {rhs}", f"mon.write({d})"])
         return "mixed_arith"
 
     def s_device_getter(self, target):
